@@ -258,6 +258,39 @@ fn check_inverse(ctx: &Ctx, civ: &Civil, tm: &Terms, ord: usize, b: usize, range
   }
 }
 
+/// the hour slots listed by the day objects of a civil day carry the eight characters of their own instants
+fn check_day_lists(ctx: &Ctx, civ: &Civil, tm: &Terms, ord: usize, loc: &mut Local) {
+  // (not before the first Jie of year 1: the governing term of those instants lies in 1 BC and the library refuses them)
+  if ord < 2 || ord + 2 > civ.len() || !tm.g_of_inst(ord as i64 * 86400 - 3600).map(|g| g >= 25).unwrap_or(false) {
+    return;
+  }
+  let d = civ.date(ord);
+  loc.transitions += 2;
+  let r = guard(|| {
+    let sd = crate::props::c01::mk(d);
+    let a: Vec<(Option<i64>, String)> = sd.get_sixty_cycle_day().get_hours().iter().map(|h| (inst_of(civ, &h.get_solar_time()), h.get_eight_char().get_name())).collect();
+    let b: Vec<(Option<i64>, String)> = sd.get_lunar_day().get_hours().iter().map(|h| (inst_of(civ, &h.get_solar_time()), h.get_eight_char().get_name())).collect();
+    (a, b)
+  });
+  let key = format!("{} hour lists", fmt_inst(civ, ord as i64 * 86400));
+  match r {
+    Ok((a, b)) => {
+      for (which, list) in [("SixtyCycleDay::get_hours", a), ("LunarDay::get_hours", b)] {
+        for (k, (t, name)) in list.iter().enumerate() {
+          if let Some(t) = t {
+            if let Some(w) = model_chars(civ, tm, *t, true) {
+              if *name != w.join(" ") {
+                ctx.violation("route", format!("{} {}[{}]", key, which, k), format!("{}[{}] at {} has eight characters [{}]; model [{}]", which, k, fmt_inst(civ, *t), name, w.join(" ")), vec!["daylists".into(), ord.to_string()]);
+              }
+            }
+          }
+        }
+      }
+    }
+    Err(m) => ctx.violation("route", key, format!("hour lists panic: {}", m), vec!["daylists".into(), ord.to_string()]),
+  }
+}
+
 /// the late Zi hour of 31 December of year y (23:00..00:59) searched with a range that ends in y: the characters hold
 /// throughout the double-hour, whose first half lies in the range, so an instant inside it must be returned
 fn check_year_end(ctx: &Ctx, civ: &Civil, tm: &Terms, y: i32, loc: &mut Local) {
@@ -328,13 +361,16 @@ pub fn run(ctx: &Ctx) {
         for h in 0..24i64 {
           check_hour(ctx, &civ, &tm, o as i64 * 86400 + h * 3600 + 1234, l);
         }
+        if o % 3 == 0 || tm.g_of_day(o).map(|g| g % 2 == 1 && tm.t[g].day as usize == o).unwrap_or(false) {
+          check_day_lists(ctx, &civ, &tm, o, l);
+        }
         if civ.date(o).1 == 1 && civ.date(o).2 == 1 {
           l.traces += 1;
         }
       }
     });
   }
-  ctx.subspace(&format!("(b) every hour (hh:20:34) of every date of the year windows {:?}: eight characters = year, month, day(+1 at 23h), hour pillars", w), done, nb);
+  ctx.subspace(&format!("(b) every hour (hh:20:34) of every date of the year windows {:?}: eight characters = year, month, day(+1 at 23h), hour pillars; on every third date and every Jie day the hour lists of both day objects", w), done, nb);
   // (b'') the whole range on a stride: every hour of every 577th (quick) / 7th (thorough) civil date of 0001-02-10..9998-12-31
   {
     let stride = if ctx.quick() { 577 } else { 7 };
@@ -421,6 +457,11 @@ pub fn replay(ctx: &Ctx, args: &[String]) {
   let n: Vec<i64> = args[1..].iter().filter_map(|a| a.parse().ok()).collect();
   let mut l = Local::default();
   match args[0].as_str() {
+    "daylists" => {
+      let y = civ.date(n[0] as usize).0 as usize;
+      let tm = Terms::build_range(ctx, &civ, y.saturating_sub(1), (y + 1).min(10000));
+      check_day_lists(ctx, &civ, &tm, n[0] as usize, &mut l);
+    }
     "yearend" => {
       let y = n[0] as usize;
       let tm = Terms::build_range(ctx, &civ, y.saturating_sub(1), (y + 2).min(10000));
